@@ -4,6 +4,8 @@
 #include <ascon/aead-masked.h>
 #include <ascon/siv.h>
 #include <ascon/isap.h>
+#include <ascon/hash.h>
+#include <ascon/xof.h>
 #include "api.h"
 
 template <class T> static int enc(const unsigned char *key, size_t klen, const unsigned char *nonce,
@@ -94,3 +96,14 @@ template <class T> static int enc_rk(const unsigned char *key, size_t klen, cons
 extern "C" int cpp_encrypt_rekey(int family, int alg, const unsigned char *key, const unsigned char *nonce,
                 unsigned char *c, const unsigned char *m, size_t mlen, const unsigned char *ad, size_t adlen)
 { DISPATCH(enc_rk, nonce, c, m, mlen, ad, adlen) }
+
+/* hash / XOF classes: message given in two update calls (raw pointers), digest through finalize / squeeze; the fixed-length templates for 32 and 64 bytes */
+template <class H> static void hash_cpp(const unsigned char *m, size_t n, unsigned char *out) { H h; h.update(m, n / 3); h.update(m + n / 3, n - n / 3); h.finalize(out); }
+template <class X> static void xof_cpp(const unsigned char *m, size_t n, unsigned char *out, size_t outlen) { X x; x.absorb(m, n / 2); x.absorb(m + n / 2, n - n / 2); x.squeeze(out, outlen / 2); x.squeeze(out + outlen / 2, outlen - outlen / 2); }
+extern "C" void cpp_hash(int a, const unsigned char *m, size_t n, unsigned char *out) { if (a) hash_cpp<ascon::hasha>(m, n, out); else hash_cpp<ascon::hash>(m, n, out); }
+extern "C" void cpp_xof(int a, size_t declared, const unsigned char *m, size_t n, unsigned char *out, size_t outlen)
+{
+    if (declared == 0) { if (a) xof_cpp<ascon::xofa>(m, n, out, outlen); else xof_cpp<ascon::xof>(m, n, out, outlen); }
+    else if (declared == 32) { if (a) xof_cpp<ascon::xofa_with_output_length<32> >(m, n, out, outlen); else xof_cpp<ascon::xof_with_output_length<32> >(m, n, out, outlen); }
+    else { if (a) xof_cpp<ascon::xofa_with_output_length<64> >(m, n, out, outlen); else xof_cpp<ascon::xof_with_output_length<64> >(m, n, out, outlen); }
+}
